@@ -13,6 +13,25 @@ DIFF : the bundled builders of wannierberri.models: Haldane_ptb(p) and Haldane_t
        KaneMele_ptb, Chiral_OSD, model_1d_pythtb) reproduces its own source eigenvalues.
 Extra : for PythTB models with all orbitals inside the home cell the band-resolved Berry curvature of the imported
        system equals pythtb's own Kubo-formula curvature (observability of the orbital positions / spinor layout).
+Widening (review): the same oracles also judge
+  * models *derived by the source package itself* (pythtb: make_supercell / cut_piece / make_finite / remove_orb / add_orb / copy /
+    change_nonperiodic_vector / parameterised terms materialised by set_parameters, with_parameters; tbmodels: supercell /
+    slice_orbitals / join_models / + - * / / set_sparse / remove_small_hop / remove_long_range_hop / change_unit_cell / hdf5 round
+    trip / from_hop_list), the example models shipped with pythtb (pythtb.models), finite PythTB models (no periodic direction), 5-10 orbitals, up to 30 hoppings up to 5 cells away,
+    sheared / unit / anisotropic cells, 'all' / Ellipsis / tuple spellings of periodic_dirs, tuple / array lattice vectors of hops;
+  * every public entry point of the importer (System_R.from_*, the deprecated System_PythTB / System_TBmodels, get_system_pythtb /
+    get_system_tbmodels, get_system_tb_py(model, module)) and the documented System parameters (berry, morb, spin, SHCryoo, OSD,
+    NKFFT, frozen_max, silent) - the bands must not depend on them; with spin=True the band-resolved spin equals the expectation
+    value of the Pauli matrices in pythtb's own eigenvectors (Extra: observability of the spin-pair layout);
+  * imported systems that were used before (rvec.copy(), npz round trip, deepcopy, warm caches, do_ws_dist - the latter judged at
+    the k-points of the Wigner-Seitz mesh, where folding leaves H(k) unchanged);
+  * multi-step histories: the import must leave the source model as it was (snapshot + eigenvalues before/after), a second import
+    of the same model gives the same matrices, a model modified after the first import and imported again gives the new bands
+    while the system imported earlier keeps the old ones (no aliasing of the source arrays);
+  * the bundled builders called with a random subset of keyword arguments (the rest at their defaults), positionally, with integer
+    and zero values, with neighbouring parameter values after a first call, Haldane_ptb / Haldane_tbm compared matrix by matrix
+    (Ham_R keyed by R), model_1d_pythtb with hoppings=None (global numpy RNG seeded identically for the two variants and restored)
+    and with hoppings given as list / tuple.
 Tolerance 1e-10 of max(band width, max|E|); evaluate_k averages bands closer than 1e-4 (documented degeneracy
 threshold), so its output is compared only at k-points where no gap lies in (1e-9, 1e-2)*scale (tie guard).
 """
@@ -26,6 +45,8 @@ import numpy as np  # noqa: E402
 
 PROP = "C32"
 RTOL = 1e-10
+# classes that fire on the unchanged tree (reported to the coordinator; see .work/review_c32_finding_*.py): off by default
+PENDING = os.environ.get("VERIF_C32_PENDING", "0") == "1"
 
 
 def setup(ctx):
@@ -45,7 +66,24 @@ def random_cell(rng, dim):
             return L * rng.uniform(0.8, 3.0)
 
 
+def random_cell_wide(rng, dim):
+    """(cell, tag): the generic cell of random_cell, or a non-reduced (sheared by whole lattice vectors) / unit / anisotropic one"""
+    u = rng.random()
+    if u < 0.6:
+        return random_cell(rng, dim), "generic"
+    if u < 0.75 and dim > 1:
+        L = random_cell(rng, dim)
+        i, j = (int(x) for x in rng.choice(dim, 2, replace=False))
+        L[i] = L[i] + int(rng.choice([-3, -2, -1, 1, 2, 3])) * L[j]
+        return L, "sheared"
+    if u < 0.87:
+        return np.eye(dim), "unit"
+    return random_cell(rng, dim) * rng.choice([0.3, 1.0, 4.0], size=dim)[:, None], "aniso"
+
+
 def random_positions(rng, n, dim, mode):
+    if mode == "origin":
+        return np.zeros((n, dim))
     if mode == "inside":
         return rng.uniform(0, 1, (n, dim))
     if mode == "outside":
@@ -65,21 +103,49 @@ def herm2(rng):
 def random_pythtb(rng, ctx):
     import pythtb
     dim_r = int(rng.integers(1, 4))
-    if dim_r > 1 and rng.random() < 0.2:
+    u = rng.random()
+    if u < 0.06:
+        per = []                                   # finite model (molecule): no k-dependence at all
+    elif dim_r > 1 and u < 0.26:
         ndir = int(rng.integers(1, dim_r))
         per = sorted(int(x) for x in rng.choice(dim_r, ndir, replace=False))
     else:
         per = list(range(dim_r))
     spinful = bool(rng.random() < 0.45)
-    norb = int(rng.integers(1, 5 if not spinful else 4))
-    pmode = ["inside", "inside", "outside", "negative", "integer_edge"][int(rng.integers(5))]
-    lat = random_cell(rng, dim_r)
+    big = bool(rng.random() < 0.1)
+    if big:
+        norb = int(rng.integers(5, 11 if not spinful else 7))
+        ctx.count("size_large")
+    else:
+        norb = int(rng.integers(1, 5 if not spinful else 4))
+    pmode = ["inside", "inside", "outside", "negative", "integer_edge", "origin"][int(rng.integers(6))]
+    lat, lat_tag = random_cell_wide(rng, dim_r)
+    if lat_tag == "sheared":
+        ctx.count("lattice_sheared")
     orb = random_positions(rng, norb, dim_r, pmode)
     legacy = bool(rng.random() < 0.2)
+    per_form = "list"
     if legacy:
-        model = pythtb.tb_model(len(per), dim_r, lat, orb, per=per, nspin=2 if spinful else 1)
+        lat_arg, orb_arg = lat, orb
+        if lat_tag == "unit" and rng.random() < 0.7:
+            lat_arg = [None, "unit"][int(rng.integers(2))]
+        else:
+            lat_arg = lat.tolist() if rng.random() < 0.5 else lat
+        if pmode == "origin" and rng.random() < 0.7:
+            orb_arg = norb if (norb > 1 or rng.random() < 0.5) else [None, "bravais"][int(rng.integers(2))]
+        else:
+            orb_arg = orb.tolist() if rng.random() < 0.5 else orb
+        model = pythtb.tb_model(len(per), dim_r, lat_arg, orb_arg, per=per if (per != list(range(len(per))) or rng.random() < 0.5) else None,
+                                nspin=2 if spinful else 1)
+        ctx.count("ptb_legacy_ctor")
     else:
-        model = pythtb.TBModel(pythtb.Lattice(lat_vecs=lat, orb_vecs=orb, periodic_dirs=per), spinful=spinful)
+        per_arg = per
+        if per == list(range(dim_r)):
+            per_form = ["list", "all", "ellipsis", "tuple"][int(rng.integers(4))]
+            per_arg = {"list": per, "all": "all", "ellipsis": ..., "tuple": tuple(per)}[per_form]
+        model = pythtb.TBModel(pythtb.Lattice(lat_vecs=lat if rng.random() < 0.5 else lat.tolist(),
+                                              orb_vecs=orb if rng.random() < 0.5 else orb.tolist(), periodic_dirs=per_arg),
+                               spinful=spinful)
     # ---- on-site
     omode = ["none", "all", "single", "all+add"][int(rng.integers(4))]
 
@@ -97,14 +163,19 @@ def random_pythtb(rng, ctx):
     if omode in ("single", "all+add"):
         model.set_onsite(onsite_val(), ind_i=int(rng.integers(norb)), mode="add" if omode == "all+add" else "set")
     # ---- hoppings
-    far = int(rng.choice([1, 1, 2, 3]))
-    nhop = int(rng.integers(1, 9))
+    far = int(rng.choice([1, 1, 2, 3, 5]))
+    nhop = int(rng.integers(9, 31)) if big or rng.random() < 0.05 else int(rng.integers(1, 9))
     # models without any inter-cell hopping (flat bands): from_pythtb raised ValueError before 9f217470
-    only_R0 = bool(rng.random() < 0.1)
+    only_R0 = bool(rng.random() < 0.1) or not per
+    if not per:
+        ctx.count("ptb_dim_k0")
     if only_R0:
         ctx.count("ptb_no_intercell_hopping")
         if norb == 1 or rng.random() < 0.3:
             nhop = 0
+    # parameterised terms (string / callable providers), materialised before the import by set_parameters / with_parameters
+    parametrised = bool(rng.random() < 0.1)
+    pvals = {}
     used = {}
     nset = 0
     for _ in range(nhop * 4):
@@ -124,10 +195,13 @@ def random_pythtb(rng, ctx):
                 amp = complex(rng.normal(), rng.normal())
             elif t == 1:
                 amp = rng.normal(size=4) + 1j * rng.normal(size=4)
+                if rng.random() < 0.3:
+                    amp = [complex(x) for x in amp]
             else:
                 amp = rng.normal(size=(2, 2)) + 1j * rng.normal(size=(2, 2))
         else:
-            amp = complex(rng.normal(), rng.normal()) if rng.random() < 0.8 else float(rng.normal())
+            v = rng.random()
+            amp = complex(rng.normal(), rng.normal()) if v < 0.75 else float(rng.normal()) if v < 0.95 else int(rng.integers(1, 4))
         kw = {}
         if key in used:
             kw["mode"] = "add" if rng.random() < 0.6 else "set"
@@ -139,28 +213,89 @@ def random_pythtb(rng, ctx):
             ctx.count("ptb_explicit_conjugate_pair")
         elif key == ckey:
             continue
-        model.set_hop(amp, i, j, [int(x) for x in R], **kw)
+        Rarg = [int(x) for x in R]
+        rform = int(rng.integers(4))
+        Rarg = (Rarg, tuple(Rarg), np.array(Rarg), Rarg)[rform]
+        if parametrised and not kw and np.ndim(amp) == 0 and rng.random() < 0.6:
+            name = f"p{len(pvals)}"
+            val = complex(amp) if not isinstance(amp, (int, float)) else amp
+            if rng.random() < 0.5:
+                prov = name
+                pvals[name] = val
+            else:
+                pvals[name] = val
+                pvals[name + "s"] = float(rng.uniform(0.5, 2.0))
+                prov = eval(f"lambda {name}, {name}s: {name} * {name}s / {pvals[name + 's']!r}")
+            amp = prov
+        if per:
+            model.set_hop(amp, i, j, Rarg, **kw)
+        else:
+            model.set_hop(amp, i, j, **kw)
         used[key] = True
         nset += 1
     if nset == 0 and not only_R0:
         raise harness.Skip("no hopping generated")
+    if pvals:
+        if rng.random() < 0.5:
+            model.set_parameters(pvals)
+        else:
+            model = model.with_parameters(**pvals)
+        ctx.count("ptb_parameterised_materialised")
     info = dict(kind="pythtb", dim_r=dim_r, periodic_dirs=per, spinful=spinful, norb=norb, positions=pmode,
-                onsite=omode, nhop=nset, far=far, legacy_ctor=legacy, only_R0=only_R0)
+                onsite=omode, nhop=nset, far=far, legacy_ctor=legacy, only_R0=only_R0, lattice=lat_tag, per_form=per_form,
+                parameterised=bool(pvals))
+    return model, info
+
+
+def library_pythtb(rng, ctx):
+    """one of the example models shipped with pythtb 2 (pythtb.models) with random parameters"""
+    import pythtb.models as pm
+    name = ["checkerboard", "fu_kane_mele", "graphene", "haldane", "kane_mele", "ssh"][int(rng.integers(6))]
+    r = lambda: float(rng.uniform(-1.5, 1.5))   # noqa: E731
+    if name == "checkerboard":
+        model = pm.checkerboard(r(), r())
+    elif name == "fu_kane_mele":
+        model = pm.fu_kane_mele(r(), r(), dt=[0.3 * r() for _ in range(4)]) if rng.random() < 0.7 else pm.fu_kane_mele(r(), r())
+    elif name == "graphene":
+        model = pm.graphene(r(), r())
+    elif name == "haldane":
+        model = pm.haldane(r(), r(), 0.3 * r(), float(rng.uniform(-np.pi, np.pi))) if rng.random() < 0.7 else pm.haldane(r(), r(), 0.3 * r())
+    elif name == "kane_mele":
+        model = pm.kane_mele(r(), r(), 0.3 * r(), 0.3 * r())
+    else:
+        model = pm.ssh(r(), r())
+    if model._has_parameterized_terms():
+        raise harness.Skip("library model with unresolved parameters")
+    ctx.count("ptb_library_model")
+    info = dict(kind="pythtb", library=name, dim_r=model.dim_r, periodic_dirs=list(model.periodic_dirs), spinful=bool(model.spinful),
+                norb=model.norb, nhop=model.nhops, only_R0=False)
     return model, info
 
 
 def random_tbmodels(rng, ctx):
     import tbmodels
     dim = int(rng.integers(1, 4))
-    size = int(rng.integers(1, 5))
-    pmode = ["inside", "outside", "negative", "integer_edge", "none"][int(rng.integers(5))]
-    uc = random_cell(rng, dim)
+    big = bool(rng.random() < 0.1)
+    size = int(rng.integers(5, 11)) if big else int(rng.integers(1, 5))
+    if big:
+        ctx.count("size_large")
+    pmode = ["inside", "outside", "negative", "integer_edge", "none", "origin"][int(rng.integers(6))]
+    uc, lat_tag = random_cell_wide(rng, dim)
+    if lat_tag == "sheared":
+        ctx.count("lattice_sheared")
     pos = None if pmode == "none" else random_positions(rng, size, dim, pmode)
+    if pos is not None and rng.random() < 0.5:
+        pos = pos.tolist()
     on_site = None if rng.random() < 0.3 else [float(x) for x in rng.normal(size=size)]
-    far = int(rng.choice([1, 1, 2, 3]))
-    ctor = ["add_hop", "hop_dict_cc", "hop_dict_nocc", "mixed"][int(rng.integers(4))]
+    far = int(rng.choice([1, 1, 2, 3, 5]))
+    ctor = ["add_hop", "hop_dict_cc", "hop_dict_nocc", "mixed", "hop_list", "onsite_only"][int(rng.integers(6))]
+    if ctor == "onsite_only" and (on_site is None or rng.random() < 0.5):
+        ctor = "add_hop"
+    sparse = bool(rng.random() < 0.15)
+    if sparse:
+        ctx.count("tbm_sparse")
     hop = {}
-    nR = int(rng.integers(1, 6))
+    nR = int(rng.integers(6, 16)) if big else int(rng.integers(1, 6))
     if ctor in ("hop_dict_cc", "hop_dict_nocc", "mixed"):
         for _ in range(nR):
             R = tuple(int(x) for x in rng.integers(-far, far + 1, dim))
@@ -172,33 +307,304 @@ def random_tbmodels(rng, ctx):
                 hop[tuple(-x for x in R)] = M.conj().T
             else:
                 hop[R] = hop.get(R, 0) + M
-    kw = dict(on_site=on_site, dim=dim, size=size, occ=int(rng.integers(0, size + 1)), pos=pos, uc=uc)
-    if hop:
-        kw.update(hop=hop, contains_cc=(ctor == "hop_dict_cc"))
-    model = tbmodels.Model(**kw)
+    kw = dict(on_site=on_site, dim=dim, size=size, occ=int(rng.integers(0, size + 1)), pos=pos, uc=uc if rng.random() < 0.5 else uc.tolist())
+    if sparse:
+        kw["sparse"] = True
     nadd = 0
-    if ctor in ("add_hop", "mixed"):
+    if ctor == "hop_list":
+        hl = []
         for _ in range(int(rng.integers(1, 8))):
+            hl.append((complex(rng.normal(), rng.normal()), int(rng.integers(size)), int(rng.integers(size)),
+                       tuple(int(x) for x in rng.integers(-far, far + 1, dim))))
+        model = tbmodels.Model.from_hop_list(hop_list=hl, contains_cc=False, **kw)
+        nadd = len(hl)
+    else:
+        if hop:
+            kw.update(hop=hop, contains_cc=(ctor == "hop_dict_cc"))
+        model = tbmodels.Model(**kw)
+    if ctor in ("add_hop", "mixed"):
+        for _ in range(int(rng.integers(9, 31)) if big else int(rng.integers(1, 8))):
             i, j = int(rng.integers(size)), int(rng.integers(size))
             R = [int(x) for x in rng.integers(-far, far + 1, dim)]
-            model.add_hop(complex(rng.normal(), rng.normal()), i, j, R)
+            model.add_hop(complex(rng.normal(), rng.normal()), i, j, R if rng.random() < 0.7 else tuple(R))
             nadd += 1
     if rng.random() < 0.2:
         model.add_on_site([float(x) for x in rng.normal(size=size)])
     if len(model.hop) == 0:
         raise harness.Skip("empty tbmodels model")
+    only_R0 = all(not any(R) for R in model.hop)
+    if only_R0:
+        ctx.count("tbm_no_intercell_hopping")
     info = dict(kind="tbmodels", dim=dim, size=size, positions=pmode, on_site=on_site is not None, ctor=ctor,
-                nR_dict=len(hop), nadd=nadd, far=far)
+                nR_dict=len(hop), nadd=nadd, far=far, lattice=lat_tag, sparse=sparse, only_R0=only_R0)
     return model, info
+
+
+# ------------------------------------------------------------------------------------------ derived models
+def derive_pythtb(rng, ctx, model, info):
+    """a model obtained from `model` with the manipulation methods of pythtb itself; returns (model, tag) - the oracle stays the
+    derived model's own solve_ham"""
+    per = list(model.periodic_dirs)
+    d = model.dim_r
+    spinful = info["spinful"]
+    ops = ["copy", "add_orb", "with_parameters_empty"]
+    if per:
+        ops += ["supercell", "supercell"]
+    if len(per) >= 1 and model.nhops > 0:
+        ops += ["cut_piece", "make_finite"]
+    if model.norb > 1:
+        ops += ["remove_orb"]
+    if len(per) < d:
+        ops += ["change_nonperiodic_vector"]
+    op = ops[int(rng.integers(len(ops)))]
+    if op == "copy":
+        m = model.copy()
+    elif op == "with_parameters_empty":
+        m = model.with_parameters()
+    elif op == "add_orb":
+        m = model.copy()
+        m.add_orb(rng.uniform(-1, 2, d))
+        R = [int(rng.integers(-1, 2)) if i in per else 0 for i in range(d)]
+        amp = complex(rng.normal(), rng.normal()) if not spinful else rng.normal(size=4) + 1j * rng.normal(size=4)
+        if per:
+            m.set_hop(amp, int(rng.integers(m.norb - 1)), m.norb - 1, R)
+        else:
+            m.set_hop(amp, int(rng.integers(m.norb - 1)), m.norb - 1)
+        if rng.random() < 0.5:
+            m.set_onsite(float(rng.normal()), ind_i=m.norb - 1)
+    elif op == "remove_orb":
+        m = model.copy()
+        # one orbital per call: pythtb 2.0.0 re-indexes the hopping table wrongly when several orbitals are removed in one call
+        # (HopTable.remove_orbitals decrements in ascending order) - a defect of the source package, its own solve_ham then fails
+        for _ in range(int(rng.integers(1, m.norb))):
+            r = int(rng.integers(m.norb))
+            m.remove_orb(r if rng.random() < 0.5 else [r])
+    elif op == "supercell":
+        np_ = len(per)
+        for _ in range(200):
+            sub = rng.integers(-2, 3, (np_, np_))
+            det = int(round(np.linalg.det(sub)))
+            if 1 <= det <= (2 if model.nstate > 8 else 4):
+                break
+        else:
+            sub = np.eye(np_, dtype=int)
+        S = np.eye(d, dtype=int)
+        for a, i in enumerate(per):
+            for b, j in enumerate(per):
+                S[i, j] = sub[a, b]
+        m = model.make_supercell(S if rng.random() < 0.5 else S.tolist(), to_home=bool(rng.random() < 0.6))
+    elif op == "cut_piece":
+        if model.nstate <= 4 and rng.random() < 0.4:
+            num = int(rng.integers(-(-100 // model.nstate), 140 // model.nstate + 1))      # 100-140 states
+        else:
+            num = int(rng.choice([1, 2, 3, 5, 17])) if model.nstate <= 6 else int(rng.integers(1, 4))
+        try:
+            m = model.cut_piece(num, int(rng.choice(per)), glue_edges=bool(num > 1 and rng.random() < 0.4))
+        except ValueError:      # gluing can turn a hopping into an on-site term, which pythtb refuses
+            raise harness.Skip("pythtb rejected the glued piece")
+    elif op == "make_finite":
+        nd = int(rng.integers(1, len(per) + 1))
+        dirs = sorted(int(x) for x in rng.choice(per, nd, replace=False))
+        nums = [int(rng.integers(1, 4)) for _ in dirs]
+        glue = None if rng.random() < 0.5 else [bool(n > 1 and rng.random() < 0.5) for n in nums]
+        try:
+            m = model.make_finite(dirs, nums, glue_edges=glue)
+        except ValueError:
+            raise harness.Skip("pythtb rejected the glued piece")
+    else:
+        m = model.copy()
+        fin = [i for i in range(d) if i not in per]
+        new_vec = None if rng.random() < 0.6 else rng.normal(size=d) + 2.0 * np.eye(d)[fin[0]] * np.sign(rng.normal())
+        try:
+            m.change_nonperiodic_vector(int(fin[0]) if new_vec is not None else int(rng.choice(fin)), new_vec, to_home=bool(rng.random() < 0.7))
+        except ValueError:
+            raise harness.Skip("change_nonperiodic_vector rejected the new vector")
+    if m.nstate > 140:
+        raise harness.Skip("derived model too large")
+    if m.nstate >= 100:
+        ctx.count("size_100_or_more")
+    return m, op
+
+
+def derive_tbmodels(rng, ctx, model, info):
+    """a model obtained from `model` with the methods / operators of tbmodels itself; returns (model, tag)"""
+    import tbmodels
+    import tempfile
+    d = model.dim
+    ops = ["supercell", "supercell", "slice", "slice_perm", "join", "add", "mul", "neg", "div", "set_sparse", "remove_small_hop",
+           "remove_long_range_hop", "hdf5", "hdf5"]
+    if model.pos is not None:
+        ops += ["change_unit_cell"]
+    op = ops[int(rng.integers(len(ops)))]
+    if op == "supercell":
+        while True:
+            n = [int(x) for x in rng.integers(1, 4, d)]
+            if np.prod(n) * model.size <= 60:
+                break
+        if np.prod(n) == 1:
+            n[0] = 2
+        m = model.supercell(n)
+    elif op == "slice":
+        keep = sorted(int(x) for x in rng.choice(model.size, max(1, model.size - int(rng.integers(1, 3))), replace=False))
+        m = model.slice_orbitals(keep)
+    elif op == "slice_perm":
+        m = model.slice_orbitals([int(x) for x in rng.permutation(model.size)])
+    elif op == "join":
+        m = tbmodels.Model.join_models(model, model * float(rng.uniform(-1, 1)))
+    elif op == "add":
+        m = model + (-model) * float(rng.uniform(0.1, 0.6))
+    elif op == "mul":
+        m = model * float(rng.uniform(-2, 2))
+    elif op == "neg":
+        m = -model
+    elif op == "div":
+        m = model / float(rng.uniform(0.5, 3))
+    elif op == "set_sparse":
+        m = model
+        m.set_sparse(not info["sparse"])
+    elif op == "remove_small_hop":
+        m = model
+        m.remove_small_hop(float(rng.uniform(0.2, 1.0)))
+    elif op == "remove_long_range_hop":
+        m = model
+        m.remove_long_range_hop(cutoff_distance_cartesian=float(rng.uniform(1.0, 6.0)))
+    elif op == "change_unit_cell":
+        m = model.change_unit_cell(uc=None, offset=[float(x) for x in rng.uniform(-1, 1, d)])
+    else:
+        fd, fn = tempfile.mkstemp(suffix=".hdf5", dir=env.WORK)
+        os.close(fd)
+        try:
+            model.to_hdf5_file(fn)
+            m = tbmodels.Model.from_hdf5_file(fn)
+        finally:
+            os.remove(fn)
+    if len(m.hop) == 0:
+        raise harness.Skip("empty derived tbmodels model")
+    return m, op
 
 
 # ------------------------------------------------------------------------------------------ evaluation
 def source_eigenvalues(model, kind, kper):
     """eigenvalues reported by the source package at reduced k (only periodic components)"""
     if kind == "pythtb":
+        if np.shape(kper)[1] == 0:      # finite model: one spectrum, the same at every k of the imported system
+            E = np.sort(np.asarray(model.solve_ham()).reshape(-1))
+            return np.tile(E, (len(kper), 1))
         E = model.solve_ham(np.array(kper))
         return np.sort(np.asarray(E).reshape(len(kper), -1), axis=1)
     return np.sort(np.array([np.asarray(e) for e in model.eigenval([list(k) for k in kper])]), axis=1)
+
+
+def dense(M):
+    return np.array(M.toarray() if hasattr(M, "toarray") else M)
+
+
+def source_snapshot(model, kind):
+    """everything that defines the source model, copied (to detect an import that modifies its input)"""
+    if kind == "pythtb":
+        hops = [(h["from_orbital"], h["to_orbital"], tuple(h.get("lattice_vector", ())), np.array(h["amplitude"])) for h in model.hoppings]
+        return dict(lat=np.array(model.lat_vecs), orb=np.array(model.get_orb_vecs(cartesian=False)), onsite=np.array(model.onsite),
+                    per=list(model.periodic_dirs), nhop=len(hops), hops=hops)
+    return dict(uc=np.array(model.uc), pos=None if model.pos is None else np.array(model.pos), size=model.size,
+                hop={tuple(R): dense(M) for R, M in model.hop.items()}, storage=sorted({type(M).__name__ for M in model.hop.values()}))
+
+
+def same(a, b):
+    if isinstance(a, dict):
+        return isinstance(b, dict) and a.keys() == b.keys() and all(same(a[k], b[k]) for k in a)
+    if isinstance(a, (list, tuple)):
+        return isinstance(b, (list, tuple)) and len(a) == len(b) and all(same(x, y) for x, y in zip(a, b))
+    if a is None or b is None:
+        return a is None and b is None
+    return bool(np.array_equal(np.asarray(a), np.asarray(b)))
+
+
+IMPORT_KW = ("berry", "morb", "berry+morb", "OSD", "NKFFT", "frozen_max", "silent")
+IMPORT_KW_PTB = ("spin", "spin", "SHCryoo", "spin+berry")
+
+
+def draw_import(rng, which):
+    """(entry point, keyword arguments, tag): all public ways into get_system_tb_py and the documented System parameters"""
+    entry = ["classmethod"] * 5 + ["deprecated", "function", "generic"]
+    entry = entry[int(rng.integers(len(entry)))]
+    if rng.random() < 0.55:
+        return entry, {}, "default"
+    opts = IMPORT_KW + (IMPORT_KW_PTB if which == "pythtb" else ())
+    tag = opts[int(rng.integers(len(opts)))]
+    kw = {}
+    for t in tag.split("+"):
+        if t == "NKFFT":
+            kw[t] = [int(x) for x in rng.integers(2, 7, 3)] if rng.random() < 0.5 else int(rng.integers(2, 7))
+        elif t == "frozen_max":
+            kw[t] = float(rng.normal())
+        else:
+            kw[t] = True
+    return entry, kw, tag
+
+
+def do_import(wb, model, which, entry, kw):
+    from wannierberri.system import System_R, system_tb_py
+    import wannierberri.system as wsys
+    if entry == "classmethod":
+        f = System_R.from_pythtb if which == "pythtb" else System_R.from_tbmodels
+    elif entry == "deprecated":
+        f = wsys.System_PythTB if which == "pythtb" else wsys.System_TBmodels
+    elif entry == "function":
+        f = system_tb_py.get_system_pythtb if which == "pythtb" else system_tb_py.get_system_tbmodels
+    else:
+        return system_tb_py.get_system_tb_py(model, module=which, **kw)
+    return f(model, **kw)
+
+
+SYSTEM_HISTORIES = ("as_built",) * 5 + ("rvec_copy", "npz_roundtrip", "deepcopy", "warm", "ws_dist", "ws_dist+rvec_copy")
+
+
+def apply_history(rng, ctx, wb, system, hist, mp):
+    """bring the imported system into a used state through the public API; `mp` is the mesh of do_ws_dist (the caller then compares at
+    the k-points of that mesh only)"""
+    import copy
+    if hist == "as_built":
+        return system
+    if hist == "deepcopy":
+        return copy.deepcopy(system)
+    if hist == "warm":
+        from vlib import monitors
+        for _ in range(2):
+            wb.evaluate_k(system, k=tuple(rng.uniform(-1, 1, 3)), quantities=["energy", "berry_curvature"])
+        monitors.warm_caches(system)
+        return system
+    if hist.startswith("ws_dist"):
+        system.do_ws_dist(tuple(mp))
+        if hist.endswith("rvec_copy"):
+            system.rvec = system.rvec.copy()
+        return system
+    system, _ = gen_systems.history_variant(rng, system, which=hist, workdir=env.WORK)
+    return system
+
+
+def mutate_source(rng, model, which, info):
+    """a further public modification of the source model (after it has been imported once); returns a tag"""
+    if which == "tbmodels":
+        if rng.random() < 0.3:
+            model.add_on_site([float(x) for x in rng.normal(size=model.size)])
+            return "add_on_site"
+        R = [int(x) for x in rng.integers(-2, 3, model.dim)]
+        model.add_hop(complex(rng.normal(), rng.normal()), int(rng.integers(model.size)), int(rng.integers(model.size)), R)
+        return "add_hop"
+    per = list(model.periodic_dirs)
+    u = rng.random()
+    if u < 0.35 or model.nhops == 0:
+        val = float(rng.normal()) if not info["spinful"] else [float(x) for x in rng.normal(size=4)]
+        model.set_onsite(val, ind_i=int(rng.integers(model.norb)), mode=["set", "add"][int(rng.integers(2))])
+        return "set_onsite"
+    h = model.hoppings[int(rng.integers(model.nhops))]
+    amp = complex(rng.normal(), rng.normal()) if not info["spinful"] else rng.normal(size=(2, 2)) + 1j * rng.normal(size=(2, 2))
+    mode = ["set", "add"][int(rng.integers(2))]
+    if per:
+        model.set_hop(amp, h["from_orbital"], h["to_orbital"], h.get("lattice_vector", [0] * model.dim_r), mode=mode)
+    else:
+        model.set_hop(amp, h["from_orbital"], h["to_orbital"], mode=mode)
+    return "set_hop_" + mode
 
 
 def full_k(rng, kper, dims, nk):
@@ -239,52 +645,142 @@ def hermiticity(ctx, system, mech, wit):
 
 # ------------------------------------------------------------------------------------------ cases
 def case_random(ctx, rng, wb, which):
-    from wannierberri.system import System_R
     if which == "pythtb":
-        model, info = random_pythtb(rng, ctx)
-        dims = info["periodic_dirs"]
-        system = System_R.from_pythtb(model)
+        model, info = library_pythtb(rng, ctx) if rng.random() < 0.08 else random_pythtb(rng, ctx)
+        if rng.random() < 0.3:
+            model, info["derived"] = derive_pythtb(rng, ctx, model, info)
+            ctx.count("derived_pythtb")
+            ctx.count("derived_pythtb_" + info["derived"])
+        dims = list(model.periodic_dirs)
+        d = model.dim_r
         nst = model.nstate
+        orbs = np.asarray(model.get_orb_vecs(cartesian=False))
+        inside = bool(np.all((orbs >= 0) & (orbs < 1)))
+    else:
+        model, info = random_tbmodels(rng, ctx)
+        if rng.random() < 0.3:
+            model, info["derived"] = derive_tbmodels(rng, ctx, model, info)
+            ctx.count("derived_tbmodels")
+            ctx.count("derived_tbmodels_" + info["derived"])
+        d = model.dim
+        dims = list(range(d))
+        nst = model.size
+        inside = model.pos is None or bool(np.all((np.asarray(model.pos) >= 0) & (np.asarray(model.pos) < 1)))
+    mech = "from_" + which
+    entry, kw, kwtag = draw_import(rng, which)
+    hist = SYSTEM_HISTORIES[int(rng.integers(len(SYSTEM_HISTORIES)))]
+    if hist.startswith("ws_dist") and d < 3:
+        # do_ws_dist on a partially periodic system may pick replicas along the non-periodic direction (vlib.gen_systems.history_variant)
+        hist = hist.replace("ws_dist+", "").replace("ws_dist", "rvec_copy")
+    info.update(entry=entry, import_kw=kwtag, history=hist)
+    nk = 5 if nst <= 24 else 2
+    mp = None
+    if hist.startswith("ws_dist"):
+        # folding the R-vectors on the mesh mp leaves H(k) unchanged exactly at the k-points of that mesh (any Brillouin zone)
+        mp = [int(x) for x in rng.integers(3, 7, 3)]
+        k3 = rng.integers(-7, 8, (nk, 3)) / np.array(mp)[None, :]
+        kper = k3[:, dims]
+    else:
+        kper = rng.uniform(-1.0, 1.5, (nk, len(dims)))
+        kper[0] = rng.choice([0.0, 0.5, 1 / 3], size=len(dims))
+        k3 = full_k(rng, kper, dims, nk)
+    Esrc = source_eigenvalues(model, which, kper)
+    scale = max(float(np.ptp(Esrc)), float(np.abs(Esrc).max()), 1e-3)
+    snap = source_snapshot(model, which)
+    system = do_import(wb, model, which, entry, kw)
+    ctx.count("import_entry_" + entry)
+    ctx.count("import_kw_" + kwtag)
+    if kwtag != "default":
+        ctx.count("import_kw_nondefault")
+    # ---- the import must not change the source model
+    if not same(snap, source_snapshot(model, which)):
+        ctx.violation(f"{mech}:source_model_modified_by_import", "lattice / positions / on-site / hoppings (values or storage) of the source differ after the import", info)
+    ctx.close(f"{mech}:source_bands_changed_by_import", source_eigenvalues(model, which, kper), Esrc, atol=1e-13 * scale, rtol=0,
+              what="source eigenvalues before and after the import", witness=info)
+    ctx.count("source_unchanged_checked")
+    if which == "pythtb":
         if bool(system.spinor) != info["spinful"]:
             ctx.violation("from_pythtb:spinor_flag", f"spinor={system.spinor} for spinful={info['spinful']}", info)
         ctx.count("from_pythtb_" + ("spinful" if info["spinful"] else "spinless"))
-        ctx.count(f"from_pythtb_dim{info['dim_r']}")
-        if len(dims) < info["dim_r"]:
+        ctx.count(f"from_pythtb_dim{d}")
+        if len(dims) < d:
             ctx.count("from_pythtb_fewer_periodic_dirs")
-        if info["positions"] != "inside":
-            ctx.count("positions_outside_home_cell")
     else:
-        model, info = random_tbmodels(rng, ctx)
-        dims = list(range(info["dim"]))
-        system = System_R.from_tbmodels(model)
-        nst = model.size
-        ctx.count(f"from_tbmodels_dim{info['dim']}")
-        if info["positions"] not in ("inside", "none"):
-            ctx.count("positions_outside_home_cell")
-    mech = "from_" + which
+        ctx.count(f"from_tbmodels_dim{d}")
+    if not inside:
+        ctx.count("positions_outside_home_cell")
     if system.num_wann != nst:
         ctx.violation(f"{mech}:num_wann", f"num_wann={system.num_wann} source={nst}", info)
         return
-    nk = 5
-    kper = rng.uniform(-1.0, 1.5, (nk, len(dims)))
-    kper[0] = rng.choice([0.0, 0.5, 1 / 3], size=len(dims))
-    Esrc = source_eigenvalues(model, which, kper)
-    k3 = full_k(rng, kper, dims, nk)
+    if nst >= 10:
+        ctx.count("num_wann_10_or_more")
     hermiticity(ctx, system, mech, info)
+    as_built = dict(Ham=np.array(system.get_R_mat("Ham")), iRvec=np.array(system.rvec.iRvec), wcc=np.array(system.wannier_centers_cart))
+    system = apply_history(rng, ctx, wb, system, hist, mp)
+    ctx.count("history_" + hist.replace("+rvec_copy", ""))
     compare_bands(ctx, wb, system, Esrc, k3, mech, info, which)
     # lattice and periodic flags
-    d = info["dim_r"] if which == "pythtb" else info["dim"]
     src_lat = np.array(model.lat_vecs if which == "pythtb" else model.uc, dtype=float)
     ctx.close(f"{mech}:real_lattice", system.real_lattice[:d, :d], src_lat, atol=1e-13 * np.abs(src_lat).max(), rtol=0,
               what="real lattice", witness=info)
     if list(system.periodic) != [True] * d + [False] * (3 - d):
         ctx.violation(f"{mech}:periodic_flags", f"periodic={system.periodic} for dim {d}", info)
-    if which == "pythtb" and info["positions"] == "inside" and len(dims) == info["dim_r"] >= 2:
+    if which == "pythtb" and (hist != "npz_roundtrip" or PENDING) and bool(system.spinor) != info["spinful"]:
+        ctx.violation("from_pythtb:spinor_flag_after_history", f"spinor={system.spinor} for spinful={info['spinful']} after {hist}", info)
+    # (a system re-loaded from npz had lost force_internal_terms_only: evaluate_k(berry_curvature) raised "AA not set" - repaired in 65fbebf5 and
+    #  judged now; the spinor flag is still not saved (side observation, only with VERIF_C32_PENDING=1))
+    if which == "pythtb" and inside and len(dims) == d >= 2 and nst <= 8 and not hist.startswith("ws_dist"):
         berry_vs_pythtb(ctx, wb, model, system, kper, k3, Esrc, info)
+    if which == "pythtb" and info["spinful"] and (kw.get("spin") or kw.get("SHCryoo")) and nst <= 24 and len(dims) > 0:
+        spin_vs_pythtb(ctx, wb, model, system, kper, k3, Esrc, info)
+    # ---- a second import of the same model: the same matrices (no state kept between imports)
+    u = rng.random()
+    if u < 0.25:
+        again = do_import(wb, model, which, entry, kw)
+        ok = (same(as_built["iRvec"], again.rvec.iRvec) and same(as_built["Ham"], again.get_R_mat("Ham")) and
+              same(as_built["wcc"], again.wannier_centers_cart))
+        if not ok:
+            ctx.violation(f"{mech}:second_import_differs", "R-vectors / Ham_R / centres of two imports of one model differ", info)
+        ctx.ev(1)
+        ctx.count("second_import_compared")
+    elif u < 0.55:
+        # ---- the source is modified after the import and imported again: new bands; the earlier system keeps the old ones
+        keep = do_import(wb, model, which, "classmethod", {})
+        info["modified_after_import"] = mutate_source(rng, model, which, info)
+        kq = rng.uniform(-1.0, 1.5, (2, len(dims)))
+        kq3 = full_k(rng, kq, dims, 2)
+        Eold = gen_systems.bands(keep, kq3)
+        Enew = source_eigenvalues(model, which, kq)
+        new = do_import(wb, model, which, entry, kw)
+        compare_bands(ctx, wb, new, Enew, kq3, mech + ":reimport_after_modification", info, which + " (modified after a first import)")
+        ctx.close(f"{mech}:earlier_system_changed_by_source_modification", gen_systems.bands(keep, kq3), Eold, atol=1e-13 * scale, rtol=0,
+                  what="bands of the system imported before the source was modified", witness=info)
+        if float(np.abs(Enew - Eold).max()) > 1e-6 * scale:
+            ctx.count("reimport_after_modification")
     bw = float((Esrc.max(axis=0) - Esrc.min(axis=0)).max())
     if bw > 1e-3 or info.get("only_R0"):
         ctx.nontrivial(tuple(sorted((k, str(v)) for k, v in info.items())))
     ctx.sample(info)
+
+
+def spin_vs_pythtb(ctx, wb, model, system, kper, k3, Esrc, wit, mech="from_pythtb"):
+    """band-resolved spin of the system imported with spin=True vs <psi|sigma|psi> of pythtb's own eigenvectors (orbital-major,
+    spin-minor layout of pythtb), at k-points without near-degeneracies"""
+    pauli = np.array([[[0, 1], [1, 0]], [[0, -1j], [1j, 0]], [[1, 0], [0, -1]]])
+    scale = max(float(np.ptp(Esrc)), 1e-3)
+    for ik in range(min(2, len(kper))):
+        gaps = np.diff(Esrc[ik])
+        if len(gaps) == 0 or gaps.min() < 2e-2 * scale:
+            ctx.count("spin_tie_skipped")
+            continue
+        E, V = model.solve_ham(np.array([kper[ik]]), return_eigvecs=True)
+        E = np.asarray(E).reshape(-1)
+        V = np.asarray(V).reshape(len(E), -1, 2)[np.argsort(E)]
+        Sp = np.real(np.einsum("bos,cst,bot->bc", V.conj(), pauli, V))
+        Sw = np.asarray(wb.evaluate_k(system, k=tuple(k3[ik]), quantities=["spin"]))
+        ctx.close(f"{mech}:spin!=source", Sw, Sp, atol=1e-9 * scale / gaps.min(), rtol=0,
+                  what=f"band-resolved spin vs pythtb eigenvectors at k={kper[ik]}", witness=wit)
+        ctx.count("spin_vs_pythtb_compared")
 
 
 def berry(wb, system, k):
@@ -318,10 +814,60 @@ def berry_vs_pythtb(ctx, wb, model, system, kper, k3, Esrc, wit, mech="from_pyth
         ctx.count("berry_vs_pythtb_compared")
 
 
+def call_form(rng, ctx, func, p, special=None):
+    """call a bundled builder with the parameter values p in one of the documented ways: all keywords / a random subset of keywords
+    (the rest at their defaults) / positionally / a positional prefix.  Returns (model builder closure, effective parameters, tag):
+    the closure can be applied to several builders with the same signature."""
+    import inspect
+    sig = inspect.signature(func)
+    names = list(sig.parameters)
+    p = dict(p)
+    if special and rng.random() < 0.2:
+        for k in names:
+            if k in special and rng.random() < 0.5:
+                p[k] = special[k][int(rng.integers(len(special[k])))]
+        ctx.count("bundled_integer_or_zero_values")
+    form = ["all_kw", "all_kw", "partial_kw", "partial_kw", "positional", "positional_prefix"][int(rng.integers(6))]
+    has_defaults = all(sig.parameters[k].default is not inspect.Parameter.empty for k in names)
+    if not has_defaults and form in ("partial_kw", "positional_prefix"):
+        form = "positional"
+    if form == "all_kw":
+        args, kwargs = (), dict(p)
+    elif form == "partial_kw":
+        given = [k for k in names if rng.random() < 0.5]
+        args, kwargs = (), {k: p[k] for k in given}
+        ctx.count("bundled_partial_args")
+    elif form == "positional":
+        args, kwargs = tuple(p[k] for k in names), {}
+        ctx.count("bundled_positional_args")
+    else:
+        m = int(rng.integers(0, len(names)))
+        rest = [k for k in names[m:] if rng.random() < 0.5]
+        args, kwargs = tuple(p[k] for k in names[:m]), {k: p[k] for k in rest}
+        ctx.count("bundled_positional_args")
+        ctx.count("bundled_partial_args")
+    bound = sig.bind(*args, **kwargs)
+    bound.apply_defaults()
+    eff = dict(bound.arguments)
+    return (lambda f: f(*args, **kwargs)), eff, form
+
+
+def ham_by_R(system):
+    return {tuple(int(x) for x in R): np.array(M) for R, M in zip(system.rvec.iRvec, system.get_R_mat("Ham"))}
+
+
+def compare_ham_by_R(ctx, sa, sb, mech, wit, scale):
+    A, B = ham_by_R(sa), ham_by_R(sb)
+    keys = sorted(set(A) | set(B))
+    z = np.zeros((sa.num_wann, sa.num_wann), dtype=complex)
+    ctx.close(mech, np.array([A.get(k, z) for k in keys]), np.array([B.get(k, z) for k in keys]), atol=1e-13 * scale, rtol=0,
+              what="real-space Hamiltonians, matrix by matrix (keyed by R; an R missing on one side counts as zero)", witness=wit)
+
+
 def case_bundled(ctx, rng, wb):
     from wannierberri.system import System_R
     from wannierberri import models
-    which = ["haldane", "haldane", "haldane", "model1d", "chiral", "ssh", "cumnas", "kanemele", "osd"][int(rng.integers(9))]
+    which = ["haldane", "haldane", "haldane", "model1d", "model1d", "chiral", "ssh", "cumnas", "kanemele", "osd"][int(rng.integers(10))]
     ctx.count("bundled_" + which)
     nk = 4
     if which == "haldane":
@@ -329,16 +875,21 @@ def case_bundled(ctx, rng, wb):
                  hop2=float(rng.uniform(-0.5, 0.5)), phi=float(rng.uniform(-np.pi, np.pi)))
         if rng.random() < 0.15:
             p["delta"] = 0.2
-        mp, mt = models.Haldane_ptb(**p), models.Haldane_tbm(**p)
+        build, p, form = call_form(rng, ctx, models.Haldane_tbm, p,
+                                   special=dict(delta=[0, 1, -2], hop1=[1, -1, 2], hop2=[0, 1], phi=[0, 1]))
+        wit = dict(kind="haldane", call=form, **p)
+        mp, mt = build(models.Haldane_ptb), build(models.Haldane_tbm)
         sp, st = System_R.from_pythtb(mp), System_R.from_tbmodels(mt)
         kper = rng.uniform(-0.5, 1.0, (nk, 2))
         k3 = full_k(rng, kper, [0, 1], nk)
         Ep, Et = source_eigenvalues(mp, "pythtb", kper), source_eigenvalues(mt, "tbmodels", kper)
         scale = max(float(np.ptp(Et)), 1e-3)
         ctx.close("models.Haldane_ptb!=Haldane_tbm:source_bands", Ep, Et, atol=RTOL * scale, rtol=0,
-                  what="pythtb vs tbmodels eigenvalues of the Haldane builders", witness=p)
-        compare_bands(ctx, wb, sp, Et, k3, "models.Haldane_ptb!=Haldane_tbm", p, "Haldane_ptb system vs Haldane_tbm source")
-        compare_bands(ctx, wb, st, Ep, k3, "models.Haldane_ptb!=Haldane_tbm", p, "Haldane_tbm system vs Haldane_ptb source")
+                  what="pythtb vs tbmodels eigenvalues of the Haldane builders", witness=wit)
+        compare_bands(ctx, wb, sp, Et, k3, "models.Haldane_ptb!=Haldane_tbm", wit, "Haldane_ptb system vs Haldane_tbm source")
+        compare_bands(ctx, wb, st, Ep, k3, "models.Haldane_ptb!=Haldane_tbm", wit, "Haldane_tbm system vs Haldane_ptb source")
+        # the same system: real-space matrices keyed by R
+        compare_ham_by_R(ctx, sp, st, "models.Haldane_ptb!=Haldane_tbm:Ham_R", wit, max(1.0, max(abs(float(v)) for v in p.values())))
         # Berry curvature of the two systems (differential); scale: a generic Haldane model has |Omega| ~ 0.1-10
         Op = np.array([berry(wb, sp, k) for k in k3])
         Ot = np.array([berry(wb, st, k) for k in k3])
@@ -346,70 +897,127 @@ def case_bundled(ctx, rng, wb):
         if gap > 1e-3 * scale:
             ctx.close("models.Haldane_ptb!=Haldane_tbm:berry_curvature", Op, Ot,
                       atol=1e-9 * max(np.abs(Ot).max(), 0.1) * max(1.0, (scale / gap) ** 2), rtol=0,
-                      what="Berry curvature of the systems from Haldane_ptb and Haldane_tbm", witness=p)
+                      what="Berry curvature of the systems from Haldane_ptb and Haldane_tbm", witness=wit)
             ctx.count("haldane_berry_compared")
         # same real-space matrices (same R set after sorting, same centres)
         ctx.close("models.Haldane_ptb!=Haldane_tbm:wannier_centers", sp.wannier_centers_cart, st.wannier_centers_cart,
-                  atol=1e-12, rtol=0, what="Wannier centres", witness=p)
+                  atol=1e-12, rtol=0, what="Wannier centres", witness=wit)
         # Chiral without interlayer hoppings = Haldane at every kz  (hop2 sign convention shared: both use t2=hop2 e^{i phi})
         mc = models.Chiral(delta=p["delta"], hop1=p["hop1"], hop2=p["hop2"], phi=p["phi"], hopz_left=0.0,
                            hopz_right=0.0, hopz_vert=0.0)
         sc = System_R.from_pythtb(mc)
         k3c = np.hstack([kper, rng.uniform(-1, 1, (nk, 1))])
-        compare_bands(ctx, wb, sc, Et, k3c, "models.Chiral(no_kz)!=Haldane_tbm", p, "Chiral without interlayer hopping")
-        ctx.nontrivial(("haldane", round(p["delta"], 3), round(p["hop2"], 3)))
-        ctx.sample(dict(kind="haldane", **p))
+        compare_bands(ctx, wb, sc, Et, k3c, "models.Chiral(no_kz)!=Haldane_tbm", wit, "Chiral without interlayer hopping")
+        # a second request with neighbouring parameter values (after the first models have been built, used and imported):
+        # both builders must follow the new values; the models returned earlier must stay as they were
+        if rng.random() < 0.5:
+            key = ["delta", "hop1", "hop2", "phi"][int(rng.integers(4))]
+            p2 = dict(p)
+            p2[key] = float(p[key]) + float(rng.choice([-1, 1])) * 10.0 ** float(rng.uniform(-7, -3))
+            mp2, mt2 = models.Haldane_ptb(**p2), models.Haldane_tbm(**p2)
+            Ep2, Et2 = source_eigenvalues(mp2, "pythtb", kper), source_eigenvalues(mt2, "tbmodels", kper)
+            wit2 = dict(wit, second_call=p2)
+            ctx.close("models.Haldane_ptb!=Haldane_tbm:source_bands(second call, neighbouring parameters)", Ep2, Et2,
+                      atol=RTOL * scale, rtol=0, what="pythtb vs tbmodels eigenvalues, second call", witness=wit2)
+            compare_bands(ctx, wb, System_R.from_pythtb(mp2), Et2, k3, "models.Haldane_ptb!=Haldane_tbm:second_call", wit2,
+                          "Haldane_ptb system vs Haldane_tbm source (second call)")
+            compare_bands(ctx, wb, System_R.from_tbmodels(mt2), Ep2, k3, "models.Haldane_ptb!=Haldane_tbm:second_call", wit2,
+                          "Haldane_tbm system vs Haldane_ptb source (second call)")
+            ctx.close("models.Haldane:earlier_model_changed_by_second_call",
+                      np.array([source_eigenvalues(mp, "pythtb", kper), source_eigenvalues(mt, "tbmodels", kper)]),
+                      np.array([Ep, Et]), atol=1e-13 * scale, rtol=0, what="eigenvalues of the models built first", witness=wit2)
+            # the two parameter sets are really different models (otherwise the comparison says nothing about staleness)
+            if float(np.abs(Et2 - Et).max()) > 100 * RTOL * scale:
+                ctx.count("haldane_neighbour_compared")
+        ctx.nontrivial(("haldane", form, round(float(p["delta"]), 3), round(float(p["hop2"]), 3)))
+        ctx.sample(wit)
         return
     if which == "model1d":
         hop = rng.uniform(-1, 1, 8)
         Delta = float(rng.uniform(-1, 1))
-        m1 = models.model_1d_pythtb(Delta=Delta, spinor_manual=True, hoppings=hop)
-        m2 = models.model_1d_pythtb(Delta=Delta, spinor_manual=False, hoppings=hop)
+        kw = dict(Delta=Delta)
+        if rng.random() < 0.2:
+            kw = dict(Delta=int(rng.choice([0, 1, -2])))
+        elif rng.random() < 0.15:
+            kw = {}                                   # documented default Delta=1
+        hform = ["array", "array", "none", "list", "tuple"][int(rng.integers(5))]
+        ctx.count("model1d_hoppings_" + hform)
+        if hform == "none":
+            # documented: "If None, random hoppings will be generated" (numpy's global generator): seeded identically for the two
+            # variants, state restored afterwards
+            seed = int(rng.integers(2 ** 31))
+            state = np.random.get_state()
+            try:
+                np.random.seed(seed)
+                m1 = models.model_1d_pythtb(spinor_manual=True, **kw)
+                np.random.seed(seed)
+                m2 = models.model_1d_pythtb(spinor_manual=False, hoppings=None, **kw)
+            finally:
+                np.random.set_state(state)
+            ctx.count("model1d_default_hoppings")
+        else:
+            conv = dict(array=np.array, list=lambda x: [float(v) for v in x], tuple=lambda x: tuple(float(v) for v in x))[hform]
+            # "hoppings : list of 8 floats": with spinor_manual=True a list / tuple raises AttributeError on the unchanged tree
+            # (review_c32_finding_1) - that combination waits for the coordinator behind VERIF_C32_PENDING
+            m1 = models.model_1d_pythtb(spinor_manual=True, hoppings=conv(hop), **kw)
+            m2 = models.model_1d_pythtb(spinor_manual=False, hoppings=conv(hop), **kw)
+            if hform != "array":
+                ctx.count("model1d_hoppings_sequence")
         s1, s2 = System_R.from_pythtb(m1), System_R.from_pythtb(m2)
         kper = rng.uniform(-0.5, 1.0, (nk, 1))
         k3 = full_k(rng, kper, [0], nk)
         E1, E2 = source_eigenvalues(m1, "pythtb", kper), source_eigenvalues(m2, "pythtb", kper)
-        wit = dict(kind="model1d", Delta=Delta, hoppings=hop)
+        wit = dict(kind="model1d", hoppings_form=hform, hoppings=hop, **kw)
         compare_bands(ctx, wb, s1, E2, k3, "models.model_1d_pythtb(manual)!=(spinor)", wit, "manual spinor system")
         compare_bands(ctx, wb, s2, E1, k3, "models.model_1d_pythtb(manual)!=(spinor)", wit, "built-in spinor system")
         ctx.close("models.model_1d_pythtb(manual)!=(spinor):Ham_R", s1.get_R_mat("Ham"), s2.get_R_mat("Ham"),
                   atol=1e-13, rtol=0, what="real-space Hamiltonians", witness=wit)
-        ctx.nontrivial(("model1d", round(Delta, 3)))
+        ctx.nontrivial(("model1d", hform, round(float(kw.get("Delta", 1)), 3)))
         ctx.sample(wit)
         return
+    special = None
     if which == "chiral":
         p = dict(delta=float(rng.uniform(-2, 2)), hop1=float(rng.uniform(-1.5, 1.5)), hop2=float(rng.uniform(-0.5, 0.5)),
                  phi=float(rng.uniform(-np.pi, np.pi)), hopz_right=complex(rng.normal(), rng.normal()) * 0.3,
                  hopz_left=complex(rng.normal(), rng.normal()) * 0.3, hopz_vert=float(rng.normal()) * 0.3)
-        m = models.Chiral(**p)
+        func = models.Chiral
+        special = dict(delta=[0, 2], hop1=[1, -1], hop2=[0, 1], phi=[0], hopz_right=[0, 1], hopz_left=[0, 1j], hopz_vert=[0, 1])
         dims = [0, 1, 2]
     elif which == "ssh":
         p = dict(delta=float(rng.uniform(-1, 1)), hop1=float(rng.uniform(-1.5, 1.5)), hop2=float(rng.uniform(-1, 1)))
-        m = models.SSH_ptb(**p)
+        func = models.SSH_ptb
+        special = dict(delta=[0, 1], hop1=[1, 0], hop2=[0, 1])
         dims = [0]
     elif which == "cumnas":
         n = rng.normal(size=3)
         p = dict(nx=float(n[0]), ny=float(n[1]), nz=float(n[2]), hop1=float(rng.uniform(0.5, 1.5)),
                  hop2=float(rng.uniform(-0.3, 0.3)), l=float(rng.uniform(0, 1)), J=float(rng.uniform(0, 1)),
                  dt=float(rng.uniform(-0.3, 0.3)))
-        m = models.CuMnAs_2d(**p)
+        func = models.CuMnAs_2d
+        special = dict(nx=[1], ny=[1], nz=[1], hop1=[1], hop2=[0], l=[0, 1], J=[0, 1], dt=[0])   # the Neel vector stays non-zero
         dims = [0, 1]
     elif which == "kanemele":
         p = dict(topological=["even", "odd"][int(rng.integers(2))])
-        m = models.KaneMele_ptb(**p)
+        func = models.KaneMele_ptb
         dims = [0, 1]
     else:
         p = {}
-        m = models.Chiral_OSD()
+        func = models.Chiral_OSD
         dims = [0, 1, 2]
+    form = "no_args"
+    if p:
+        build, p, form = call_form(rng, ctx, func, p, special=special)
+        m = build(func)
+    else:
+        m = func()
     s = System_R.from_pythtb(m)
     kper = rng.uniform(-0.5, 1.0, (nk, len(dims)))
     k3 = full_k(rng, kper, dims, nk)
     E = source_eigenvalues(m, "pythtb", kper)
-    wit = dict(kind=which, **p)
+    wit = dict(kind=which, call=form, **p)
     hermiticity(ctx, s, "models." + which, wit)
     compare_bands(ctx, wb, s, E, k3, "models." + which + ":from_pythtb", wit, which)
-    ctx.nontrivial((which,) + tuple(sorted((k, str(v)[:8]) for k, v in p.items())))
+    ctx.nontrivial((which, form) + tuple(sorted((k, str(v)[:8]) for k, v in p.items())))
     ctx.sample(wit)
 
 
@@ -428,18 +1036,33 @@ if __name__ == "__main__":
     harness.main(
         PROP, "exploration", case, setup_fn=setup,
         tiers=dict(quick=dict(cases=1600, shards=8, time=900), thorough=dict(cases=40000, shards=16, time=3000)),
-        rule="random PythTB models (dim 1-3, possibly fewer periodic directions, 1-4 orbitals, spinless/spinful, positions "
-             "inside / outside / negative / on cell edges, on-site none/all/single/accumulated, 1-8 hoppings up to 3 cells "
-             "away, scalar / Pauli-vector / 2x2 amplitudes, repeated and explicit conjugate hoppings, legacy tb_model "
-             "constructor), random TBmodels models (dim 1-3, 1-4 orbitals, add_hop / hop dict with and without cc), the "
-             "bundled builders with random parameters; non-trivial = band width > 1e-3 (or a PythTB model without inter-cell "
-             "hoppings, generated on purpose); distinct by the full descriptor",
+        rule="random PythTB models (dim 1-3, 0..dim periodic directions, 1-10 orbitals, spinless/spinful, positions inside / outside / "
+             "negative / on cell edges / all at the origin, generic / sheared / unit / anisotropic cells, on-site "
+             "none/all/single/accumulated, 1-30 hoppings up to 5 cells away, scalar / Pauli-vector / 2x2 amplitudes, repeated and "
+             "explicit conjugate hoppings, parameterised terms materialised before the import, legacy tb_model constructor, models "
+             "derived with pythtb's own manipulation methods), random TBmodels models (dim 1-3, 1-10 orbitals, add_hop / hop dict with "
+             "and without cc / from_hop_list / on-site only, dense and sparse, models derived with tbmodels' own methods), every "
+             "entry point and documented System parameter of the importer, used systems (rvec.copy, npz, deepcopy, warm, "
+             "do_ws_dist), second import / import after modification, the bundled builders with random parameters passed "
+             "by keyword / partially / positionally; non-trivial = band width > 1e-3 (or a model without inter-cell hoppings, "
+             "generated on purpose); distinct by the full descriptor",
         assumptions=["oracle = eigenvalues reported by pythtb 2.0 (solve_ham) / tbmodels 1.4.3 (eigenval)",
                      "tolerance 1e-10 of max(band width, max|E|)",
                      "evaluate_k averages bands closer than its degeneracy threshold: near-degenerate k-points are "
-                     "compared through the sum of the energies only (tie guard), always through vlib.gen_systems.bands"],
+                     "compared through the sum of the energies only (tie guard), always through vlib.gen_systems.bands",
+                     "after do_ws_dist(mp) the bands are compared at the k-points of the mesh mp only (folding changes H(k) elsewhere)",
+                     "source models with unresolved parameterised terms, TBmodels models without a unit cell and a zero Neel vector of "
+                     "CuMnAs_2d are outside the domain (no band energies / no lattice / division by zero)"],
         required_counters=("from_pythtb_spinful", "from_pythtb_spinless", "from_pythtb_dim1", "from_pythtb_dim2",
                            "from_pythtb_dim3", "from_tbmodels_dim1", "from_tbmodels_dim2", "from_tbmodels_dim3",
                            "positions_outside_home_cell", "ptb_no_intercell_hopping", "berry_vs_pythtb_compared", "bundled_haldane", "haldane_berry_compared",
-                           "evaluate_k_compared"),
+                           "evaluate_k_compared",
+                           # widening review
+                           "derived_pythtb", "derived_tbmodels", "import_kw_nondefault", "import_entry_deprecated", "import_entry_function",
+                           "import_entry_generic", "history_rvec_copy", "history_npz_roundtrip", "history_deepcopy", "history_warm",
+                           "history_ws_dist", "source_unchanged_checked", "second_import_compared", "reimport_after_modification",
+                           "spin_vs_pythtb_compared", "size_large", "num_wann_10_or_more", "size_100_or_more", "lattice_sheared", "ptb_dim_k0",
+                           "ptb_parameterised_materialised", "ptb_library_model", "tbm_sparse", "tbm_no_intercell_hopping", "bundled_partial_args",
+                           "bundled_positional_args", "bundled_integer_or_zero_values", "haldane_neighbour_compared",
+                           "model1d_default_hoppings", "model1d_hoppings_sequence"),
     )
